@@ -2,23 +2,30 @@
    analyse the stub is syntactically valid, type-checks, agrees with stubtest and is structurally faithful") quantifies
    over the whole emitter; only the signature core is modelled, the rest is searched by the cross-tool oracle (S). *)
 From Coq Require Import List String Bool.
-From C19 Require Import Sig Imports.
+From C19 Require Import Sig Imports Ann.
 
 (* every parameter list Python's grammar can produce is printed so that it parses back to the same kinds, names,
    order, annotations (defaults as rendered) *)
 Definition sig_roundtrip : Prop :=
   forall magic a, wf_params a = true ->
     parse_sig (print_sig (get_func_args magic (transform_args a))) = Some (stub_view magic a).
-(* FALSE on the current tree: Properties.sig_roundtrip_refuted (parameters named __x outside the leading positional
-   run); proved instead: Properties.sig_roundtrip_partial. *)
+(* Since fix d2bbe81 this holds under the extra hypothesis self_cls_plain (Properties.sig_roundtrip); without it exactly
+   one thing fails: the annotation of a first parameter named self/cls is dropped (Properties.self_annotation_dropped). *)
 
 (* the printed list obeys the ordering constraints of Python's parameter grammar *)
 Definition printed_sig_is_valid_python : Prop :=
   forall magic a, wf_params a = true ->
     parse_sig (print_sig (get_func_args magic (transform_args a))) <> None.
-(* FALSE on the current tree: Properties.printed_sig_is_valid_python_refuted; proved instead: ..._partial. *)
+(* proved under self_cls_plain (Properties.printed_sig_is_valid_python); dropping an annotation cannot invalidate the
+   list, but that case is not part of the proof. *)
 
 (* ImportTracker: proved at full strength over the model (Properties.every_required_name_imported_once).  Note what it
    does NOT say: a required name that was never registered by add_import/add_import_from is silently skipped by
    import_lines (by design: "defined locally"); whether stubgen registers every name it prints is emitter logic,
    covered only by the S oracle (mypy on the stub: name-defined). *)
+
+(* annotation printing: proved at full strength over the model (Properties.ann_roundtrip, for every type expression of
+   the grammar modelled in Ann.v) *)
+Definition ann_roundtrip : Prop := forall t, wf_ty t = true -> parse_ann (print_ty t) = Some (norm t).
+(* NOT modelled: analysed types (Instance, CallableType as reveal_type prints it), Tuple[()], unpack, the known_modules
+   branch; default-value rendering (get_str_default_of_node) is carried as data by Sig.param, tied by the C stage only. *)
